@@ -5,6 +5,7 @@
 import NiftyVerif.Model.NewtonRe
 import NiftyVerif.Lemmas.CgReDescent
 import NiftyVerif.Lemmas.CgReSim
+import NiftyVerif.Lemmas.CgReAbs0
 
 namespace NiftyVerif.NewtonRe
 set_option linter.unusedSectionVars false
@@ -12,7 +13,7 @@ set_option linter.unusedSimpArgs false
 open NiftyVerif.Iter
 
 variable {K V : Type} [Field K] [LinearOrder K] [IsStrictOrderedRing K] [AddCommGroup V] [Module K V]
-variable (c : Cfg K) (f : V → K × V) (hessp : V → V → V) (ip : V → V → K) (gradnorm : V → K) (nrm : V → K)
+variable (c : Cfg K) (f : V → K × V) (nan : V → Bool) (hessp : V → V → V) (ip : V → V → K) (gradnorm : V → K) (nrm : V → K)
 
 theorem ite3_cases' {α : Type} (A B : Prop) [Decidable A] [Decidable B] (x y z : α) (P : α → Prop)
     (hx : P x) (hy : P y) (hz : P z) : P (if A then x else if B then y else z) := by
@@ -30,6 +31,9 @@ def sched (k : Nat) : K := if k ≤ 5 then halves k else halves (k - 6)
 def trialPos (pos natg rd : V) (k : Nat) : V :=
   if k ≤ 5 then pos - (halves k : K) • natg else pos - (halves (k - 6) : K) • rd
 
+/-- a trial position is acceptable: its energy is a number (not NaN) and not above the current energy -/
+def Acc (f : V → K × V) (nan : V → Bool) (energy : K) (p : V) : Prop := nan p = false ∧ (f p).1 ≤ energy
+
 theorem halves_pos : ∀ k, 0 < (halves k : K) := by
   intro k
   induction k with
@@ -40,9 +44,9 @@ theorem sched_pos (k : Nat) : 0 < (sched k : K) := by
   unfold sched; split_ifs <;> exact halves_pos _
 
 theorem lsEager_spec' (pos : V) (energy : K) (g : V) : ∀ (fuel ls : Nat) (gs : K) (dd : V) (reset : Bool),
-    (lsEager f hessp ip pos energy g fuel ls gs dd reset).found = true →
-    (lsEager f hessp ip pos energy g fuel ls gs dd reset).newEnergy
-      = (f (lsEager f hessp ip pos energy g fuel ls gs dd reset).newPos).1 := by
+    (lsEager f nan hessp ip pos energy g fuel ls gs dd reset).found = true →
+    (lsEager f nan hessp ip pos energy g fuel ls gs dd reset).newEnergy
+      = (f (lsEager f nan hessp ip pos energy g fuel ls gs dd reset).newPos).1 := by
   intro fuel
   induction fuel with
   | zero => intro ls gs dd reset h; simp [lsEager] at h
@@ -57,12 +61,12 @@ theorem lsEager_spec' (pos : V) (energy : K) (g : V) : ∀ (fuel ls : Nat) (gs :
 theorem lsEager_first (pos : V) (energy : K) (g natg : V) :
     ∀ (fuel ls : Nat) (gs : K) (dd : V) (reset : Bool), ls + fuel = 9 →
     (ls ≤ 5 → gs = halves ls ∧ dd = natg) → (6 ≤ ls → gs = halves (ls - 6) ∧ dd = resetDir ip hessp pos g) →
-    let R := lsEager f hessp ip pos energy g fuel ls gs dd reset
+    let R := lsEager f nan hessp ip pos energy g fuel ls gs dd reset
     (R.found = true → ∃ k, ls ≤ k ∧ k < 9 ∧ R.trials = k + 1
         ∧ R.newPos = trialPos (K := K) pos natg (resetDir ip hessp pos g) k
-        ∧ (f (trialPos (K := K) pos natg (resetDir ip hessp pos g) k)).1 ≤ energy
-        ∧ ∀ k', ls ≤ k' → k' < k → ¬ (f (trialPos (K := K) pos natg (resetDir ip hessp pos g) k')).1 ≤ energy)
-    ∧ (R.found = false → ∀ k, ls ≤ k → k < 9 → ¬ (f (trialPos (K := K) pos natg (resetDir ip hessp pos g) k)).1 ≤ energy) := by
+        ∧ Acc f nan energy (trialPos (K := K) pos natg (resetDir ip hessp pos g) k)
+        ∧ ∀ k', ls ≤ k' → k' < k → ¬ Acc f nan energy (trialPos (K := K) pos natg (resetDir ip hessp pos g) k'))
+    ∧ (R.found = false → ∀ k, ls ≤ k → k < 9 → ¬ Acc f nan energy (trialPos (K := K) pos natg (resetDir ip hessp pos g) k)) := by
   intro fuel
   induction fuel with
   | zero =>
@@ -77,22 +81,22 @@ theorem lsEager_first (pos : V) (energy : K) (g natg : V) :
       · rw [(hlo h5).1, (hlo h5).2]
       · rw [(hhi (by omega)).1, (hhi (by omega)).2]
     simp only [lsEager]
-    by_cases hacc : (f (pos - gs • dd)).1 ≤ energy
+    by_cases hacc : nan (pos - gs • dd) = false ∧ (f (pos - gs • dd)).1 ≤ energy
     · simp only [hacc, if_true]
       refine ⟨fun _ => ⟨ls, le_refl _, by omega, rfl, hpos, by rw [← hpos]; exact hacc, fun k' a b => by omega⟩,
         fun h => by simp at h⟩
     · simp only [hacc, if_false]
-      have hrej : ¬ (f (trialPos (K := K) pos natg (resetDir ip hessp pos g) ls)).1 ≤ energy := by rw [← hpos]; exact hacc
+      have hrej : ¬ Acc f nan energy (trialPos (K := K) pos natg (resetDir ip hessp pos g) ls) := by rw [← hpos]; exact hacc
       have key : ∀ (gs' : K) (dd' : V) (reset' : Bool),
           ((ls + 1) ≤ 5 → gs' = halves (ls + 1) ∧ dd' = natg) →
           (6 ≤ ls + 1 → gs' = halves (ls + 1 - 6) ∧ dd' = resetDir ip hessp pos g) →
-          (let R := lsEager f hessp ip pos energy g fuel (ls + 1) gs' dd' reset'
+          (let R := lsEager f nan hessp ip pos energy g fuel (ls + 1) gs' dd' reset'
           (R.found = true → ∃ k, ls ≤ k ∧ k < 9 ∧ R.trials = k + 1
               ∧ R.newPos = trialPos (K := K) pos natg (resetDir ip hessp pos g) k
-              ∧ (f (trialPos (K := K) pos natg (resetDir ip hessp pos g) k)).1 ≤ energy
-              ∧ ∀ k', ls ≤ k' → k' < k → ¬ (f (trialPos (K := K) pos natg (resetDir ip hessp pos g) k')).1 ≤ energy)
+              ∧ Acc f nan energy (trialPos (K := K) pos natg (resetDir ip hessp pos g) k)
+              ∧ ∀ k', ls ≤ k' → k' < k → ¬ Acc f nan energy (trialPos (K := K) pos natg (resetDir ip hessp pos g) k'))
           ∧ (R.found = false → ∀ k, ls ≤ k → k < 9 →
-              ¬ (f (trialPos (K := K) pos natg (resetDir ip hessp pos g) k)).1 ≤ energy)) := by
+              ¬ Acc f nan energy (trialPos (K := K) pos natg (resetDir ip hessp pos g) k))) := by
         intro gs' dd' reset' h1 h2
         have := ih (ls + 1) gs' dd' reset' (by omega) h1 h2
         simp only at this ⊢
@@ -123,23 +127,23 @@ theorem lsEager_first (pos : V) (energy : K) (g natg : V) :
 
 /-- **The line search accepts the first acceptable trial.** -/
 theorem lineSearchEager_first (pos : V) (energy : K) (g natg : V) :
-    let R := lineSearchEager f hessp ip pos energy g natg
+    let R := lineSearchEager f nan hessp ip pos energy g natg
     let tp := trialPos (K := K) pos natg (resetDir ip hessp pos g)
-    (R.found = true ↔ ∃ k, k < 9 ∧ (f (tp k)).1 ≤ energy)
+    (R.found = true ↔ ∃ k, k < 9 ∧ Acc f nan energy (tp k))
     ∧ (R.found = true → ∃ k, k < 9 ∧ R.trials = k + 1 ∧ R.newPos = tp k ∧ R.newEnergy = (f (tp k)).1
-        ∧ (f (tp k)).1 ≤ energy ∧ ∀ k', k' < k → energy < (f (tp k')).1) := by
-  have h := lsEager_first f hessp ip pos energy g natg 9 0 1 natg false (by omega)
+        ∧ Acc f nan energy (tp k) ∧ ∀ k', k' < k → ¬ Acc f nan energy (tp k')) := by
+  have h := lsEager_first f nan hessp ip pos energy g natg 9 0 1 natg false (by omega)
     (fun _ => ⟨by simp [halves], rfl⟩) (fun h => by omega)
-  have hspec := lsEager_spec' f hessp ip pos energy g 9 0 1 natg false
+  have hspec := lsEager_spec' f nan hessp ip pos energy g 9 0 1 natg false
   simp only [lineSearchEager] at h hspec ⊢
   refine ⟨⟨fun hf => ?_, fun ⟨k, hk, hle⟩ => ?_⟩, fun hf => ?_⟩
   · obtain ⟨k, _, b, _, _, e, _⟩ := h.1 hf
     exact ⟨k, b, e⟩
   · by_contra hnf
-    have hnf' : (lsEager f hessp ip pos energy g 9 0 1 natg false).found = false := by simpa using hnf
+    have hnf' : (lsEager f nan hessp ip pos energy g 9 0 1 natg false).found = false := by simpa using hnf
     exact h.2 hnf' k (Nat.zero_le _) hk hle
   · obtain ⟨k, _, b, c', d, e, g'⟩ := h.1 hf
-    refine ⟨k, b, c', d, ?_, e, fun k' hk' => lt_of_not_ge (g' k' (Nat.zero_le _) hk')⟩
+    refine ⟨k, b, c', d, ?_, e, fun k' hk' => g' k' (Nat.zero_le _) hk'⟩
     rw [← d]; exact hspec hf
 
 /-- with negative curvature along a non-zero gradient the CG of C15 (failure not requested) returns `t·g`,
@@ -186,12 +190,12 @@ theorem ncgEagerStep_negcurv (base : CgRe.Cfg K) (pa pr : Bool) (cgnorm : V → 
     (hm : Linear (K := K) (hessp s.pos)) (hsa : CgRe.SelfAdj ip (hessp s.pos)) (hnn : ∀ a, 0 ≤ ip a a)
     (hmax : 0 < CgRe.maxiterEff base) (hg0 : ip s.g s.g ≠ 0)
     (hcurv : ip s.g (hessp s.pos s.g) < 0)
-    (hex : ∃ k, k < 9 ∧ (f (s.pos - ((sched k : K) * (ip s.g s.g / -ip s.g (hessp s.pos s.g))) • s.g)).1 ≤ s.energy) :
+    (hex : ∃ k, k < 9 ∧ Acc f nan s.energy (s.pos - ((sched k : K) * (ip s.g s.g / -ip s.g (hessp s.pos s.g))) • s.g)) :
     ∃ k, k < 9 ∧ 0 < (sched k : K) * (ip s.g s.g / -ip s.g (hessp s.pos s.g))
-      ∧ (f (s.pos - ((sched k : K) * (ip s.g s.g / -ip s.g (hessp s.pos s.g))) • s.g)).1 ≤ s.energy
+      ∧ Acc f nan s.energy (s.pos - ((sched k : K) * (ip s.g s.g / -ip s.g (hessp s.pos s.g))) • s.g)
       ∧ (∀ k', k' < k →
-          s.energy < (f (s.pos - ((sched k' : K) * (ip s.g s.g / -ip s.g (hessp s.pos s.g))) • s.g)).1)
-      ∧ (match ncgEagerStep c f hessp ip gradnorm cgnorm (cgOracle base pa pr ip nrm hessp) i s with
+          ¬ Acc f nan s.energy (s.pos - ((sched k' : K) * (ip s.g s.g / -ip s.g (hessp s.pos s.g))) • s.g))
+      ∧ (match ncgEagerStep c f nan hessp ip gradnorm cgnorm (cgOracle base pa pr ip nrm hessp) i s with
          | .next s' => s'.pos = s.pos - ((sched k : K) * (ip s.g s.g / -ip s.g (hessp s.pos s.g))) • s.g
              ∧ s'.energy = (f s'.pos).1
          | .stop (.ok r) => r.status = 0
@@ -202,9 +206,9 @@ theorem ncgEagerStep_negcurv (base : CgRe.Cfg K) (pa pr : Bool) (cgnorm : V → 
   have htpos : 0 < t := div_pos hγ (by linarith)
   have hcg := cgOracle_negcurv hessp ip nrm base pa pr (eagerCgArgs c cgnorm s) s.pos s.g hip hm hsa hnn hmax hg0 hcurv
   have hrd := resetDir_negcurv hessp ip s.pos s.g hcurv
-  have hfirst := lineSearchEager_first f hessp ip s.pos s.energy s.g (t • s.g)
+  have hfirst := lineSearchEager_first f nan hessp ip s.pos s.energy s.g (t • s.g)
   simp only [hrd, ← ht, trialPos_along] at hfirst
-  have hfound : (lineSearchEager f hessp ip s.pos s.energy s.g (t • s.g)).found = true := hfirst.1.mpr hex
+  have hfound : (lineSearchEager f nan hessp ip s.pos s.energy s.g (t • s.g)).found = true := hfirst.1.mpr hex
   obtain ⟨k, hk, _, hpos, hen, hle, hfirstk⟩ := hfirst.2 hfound
   refine ⟨k, hk, mul_pos (sched_pos k) htpos, hle, hfirstk, ?_⟩
   unfold ncgEagerStep
@@ -267,5 +271,18 @@ theorem cgOracleStatic_eq (base : CgRe.Cfg K) (pa pr : Bool) (ip : V → V → K
   have h2 := congrArg CgRe.Obs.info hs
   simp only [CgRe.SSt.obs, CgRe.Res.obs] at h1 h2
   rw [h1, h2]
+
+/-- with the minimiser's own residual bound (`resnorm` not pinned) the C15 conjugate gradient answers alike for
+    `absdelta=None` (eager, first iteration) and `absdelta=0.` (compiled): the oracle-insensitivity hypothesis of
+    `static_ncg_eq_eager` holds for the real inner solver whenever the Hessian is linear and self-adjoint -/
+theorem cgOracle_abs0 (base : CgRe.Cfg K) (ip : V → V → K) (nrm : V → K) (hessp : V → V → V)
+    (hip : Iter.SymmBilin ip) (hnn : ∀ a, 0 ≤ ip a a)
+    (hm : ∀ pos, Iter.Linear (K := K) (hessp pos)) (hsa : ∀ pos, CgRe.SelfAdj ip (hessp pos)) (m : K) (pos g : V) :
+    cgOracle base false false ip nrm hessp ⟨none, m⟩ pos g = cgOracle base false false ip nrm hessp ⟨some 0, m⟩ pos g := by
+  have h := CgRe.cgEager_abs0 (cgCfgOf base false false ⟨some 0, m⟩) ip nrm (hessp pos) g hip (hm pos) (hsa pos) hnn
+    rfl (Or.inr rfl) none
+  unfold cgOracle
+  rw [h]
+  rfl
 
 end NiftyVerif.NewtonRe
